@@ -957,62 +957,41 @@ Proof.
 Qed.
 
 (* ------------------------------------------------------------------ schema extension *)
-(* `{ RootOperationTypeDefinition* }`, returning whether there was one *)
-Definition g_schema_ext_block (f : nat) : PM bool :=
+(* `{ RootOperationTypeDefinition+ }` as schema_extension writes it (the same text as in schema_definition) *)
+Definition g_schema_ext_block (f : nat) : PM unit :=
   p_bump SK_L_CURLY ;;
-  r <- p_peek_while_kind_acc f TkName (fun _ => g_root_operation_type_definition ;; p_ret true) false ;;
-  p_expect TkRCurly SK_R_CURLY ;;
-  p_ret r.
+  has <- p_peek_while_kind_acc f TkName (fun _ => g_root_operation_type_definition ;; p_ret true) false ;;
+  p_when (negb has) p_err ;; p_expect TkRCurly SK_R_CURLY.
 
-Lemma rl_sim_schema_ext_block f : rl_sim (rg_starts (rg_is TkLCurly)) (g_schema_ext_block f) (rgl_rootops0 LP).
-Proof.
-  unfold g_schema_ext_block, rgl_rootops0. apply rl_sim_bind; [apply rl_sim_bump|intros _].
-  apply rl_sim_bind; [apply (rl_sim_rootop_loop f false)|intros r].
-  apply rl_sim_silent_r; [apply rl_sim_expect; discriminate|intros _; apply rl_silent_ret].
-Qed.
-
-(* the value it returns *)
-Lemma rl_schema_ext_block_flag f s r s' t : rl_inv s -> ps_cur s = Some t -> tok_kind t = TkLCurly ->
-  g_schema_ext_block f s = POk (r, s') ->
-  exists s2, p_bump SK_L_CURLY s = POk (tt, s2) /\ rl_inv s2 /\
-             rl_sigs s = (TkLCurly, tok_data t) :: rl_sigs s2 /\ r = rl_head_is (rg_is TkName) (rl_sigs s2).
-Proof.
-  intros Hinv Hc Hk E. unfold g_schema_ext_block in E. apply bind_ok in E as ([] & s2 & E2 & E).
-  assert (Hne : tok_kind t <> TkEof) by congruence.
-  destruct (rl_bump_run _ _ _ _ _ Hinv Hc Hne E2) as (Hinv2 & Hsig2 & _). rewrite Hk in Hsig2.
-  apply bind_ok in E as (r1 & s3 & E3 & E). apply bind_ok in E as (? & s4 & _ & E). unfold p_ret in E.
-  injection E as <- _. exists s2. split; [exact E2|]. split; [exact Hinv2|]. split; [exact Hsig2|].
-  exact (rl_rootop_loop_flag f false s2 r1 s3 Hinv2 E3).
-Qed.
+Lemma rl_sim_schema_ext_block f : rl_sim (rg_starts (rg_is TkLCurly)) (g_schema_ext_block f) (rgl_rootops LP).
+Proof. exact (rl_sim_rootops_block f). Qed.
 
 Definition g_schema_ext_rest (f : nat) : PM unit :=
   d <- g_peek_is TkAt ;; p_when d (g_directives f GConst) ;;
   c <- g_peek_is TkLCurly ;;
-  r <- (if c then g_schema_ext_block f else p_ret false) ;;
-  p_when (negb (d || r)) p_err.
+  if c then g_schema_ext_block f else p_when (negb d) p_err.
 
 Lemma rgl_schema_ext_tail_at ts : rl_head_is (rg_is TkAt) ts = true ->
-  rgl_schema_ext_tail LP ts = rg_seq (rgl_directives LP true) (rg_opt (rg_is TkLCurly) (rgl_rootops0 LP)) ts.
+  rgl_schema_ext_tail LP ts = rg_seq (rgl_directives LP true) (rg_opt (rg_is TkLCurly) (rgl_rootops LP)) ts.
 Proof.
   intros H. unfold rgl_schema_ext_tail. cbn [rgl_schemaext_empty rgl_parser andb].
-  destruct ts as [|t ts']; [discriminate|]. cbn [rl_head_is] in H. rewrite H. reflexivity.
+  destruct ts as [|t ts']; [discriminate|]. cbn [rl_head_is] in H.
+  unfold rg_seq at 1, rg_bind at 1, rg_peek, rg_is_at_or. rewrite H. reflexivity.
 Qed.
 Lemma rgl_schema_ext_tail_noat ts : rl_head_is (rg_is TkAt) ts = false ->
-  rgl_schema_ext_tail LP ts = match ts with (TkLCurly, _) :: _ => rgl_rootops LP ts | _ => RgNo end.
+  rgl_schema_ext_tail LP ts = rgl_rootops LP ts.
 Proof.
   intros H. unfold rgl_schema_ext_tail. cbn [rgl_schemaext_empty rgl_parser andb].
-  destruct ts as [|[k d] ts']; [reflexivity|]. cbn [rl_head_is] in H. rewrite H.
-  unfold rg_seq at 1, rg_bind, rg_peek, rg_is_at_or. rewrite H. cbn [orb]. unfold rg_is at 1. cbn [fst].
-  destruct k; cbn [tkind_eqb]; reflexivity.
+  destruct ts as [|[k d] ts']; [reflexivity|]. cbn [rl_head_is] in H.
+  destruct k; try (cbn in H; discriminate H); reflexivity.
 Qed.
 
 Lemma rl_gen_schema_ext_rest f : rl_gen (g_schema_ext_rest f).
 Proof.
   unfold g_schema_ext_rest. apply rl_gen_bind; [apply rl_gen_peek_is|intros d]. apply rl_gen_bind.
   - destruct d; cbn [p_when]; [apply (rl_sim_directives f GConst)|apply rl_gen_ret].
-  - intros _. apply rl_gen_bind; [apply rl_gen_peek_is|intros c]. apply rl_gen_bind.
-    + destruct c; [apply rl_sim_schema_ext_block|apply rl_gen_ret].
-    + intros r. destruct (negb (d || r)); cbn [p_when]; [apply rl_gen_err|apply rl_gen_ret].
+  - intros _. apply rl_gen_bind; [apply rl_gen_peek_is|intros c].
+    destruct c; [apply rl_sim_schema_ext_block|]. destruct (negb d); cbn [p_when]; [apply rl_gen_err|apply rl_gen_ret].
 Qed.
 
 Lemma rl_sim_schema_ext_rest f : rl_sim rl_any (g_schema_ext_rest f) (rgl_schema_ext_tail LP).
@@ -1021,63 +1000,26 @@ Proof.
   destruct (rl_inv_cur _ Hinv) as (t & Hc & Hi & _). unfold g_schema_ext_rest in E.
   unfold p_bind at 1 in E. rewrite (peek_is_some TkAt t s Hc) in E.
   rewrite (rl_peek_is_view _ _ _ Hinv Hc) in E by discriminate.
-  destruct (rl_head_is (rg_is TkAt) (rl_sigs s)) eqn:Hat; cbn [p_when orb] in E.
-  - (* directives present: whatever the block holds, the final check passes *)
-    apply (rl_post_ext (rg_seq (rgl_directives LP true) (rg_opt (rg_is TkLCurly) (rgl_rootops0 LP))));
+  destruct (rl_head_is (rg_is TkAt) (rl_sigs s)) eqn:Hat; cbn [p_when negb] in E.
+  - (* directives present: the block is optional, but when present it holds at least one root operation type *)
+    apply (rl_post_ext (rg_seq (rgl_directives LP true) (rg_opt (rg_is TkLCurly) (rgl_rootops LP))));
       [symmetry; apply rgl_schema_ext_tail_at; exact Hat|].
     assert (Hsim : rl_sim rl_any
-              (g_directives f GConst ;; c <- g_peek_is TkLCurly ;;
-               r <- (if c then g_schema_ext_block f else p_ret false) ;; p_when (negb true) p_err)
-              (rg_seq (rgl_directives LP true) (rg_opt (rg_is TkLCurly) (rgl_rootops0 LP)))).
+              (g_directives f GConst ;; c <- g_peek_is TkLCurly ;; if c then g_schema_ext_block f else p_ret tt)
+              (rg_seq (rgl_directives LP true) (rg_opt (rg_is TkLCurly) (rgl_rootops LP)))).
     { apply rl_sim_bind; [apply (rl_sim_directives f GConst)|intros _].
-      (* c <- peek ; r <- (if c ..) ; ret  is  g_if_peek with the value dropped *)
-      apply (rl_sim_fext rl_any (g_if_peek TkLCurly (g_schema_ext_block f ;; p_ret tt))).
-      { intros s0. unfold g_if_peek, p_bind, p_ret. destruct (g_peek_is TkLCurly s0) as [[c s1]| |]; [|reflexivity|reflexivity].
-        destruct c; cbn [p_when negb]; [|reflexivity]. destruct (g_schema_ext_block f s1) as [[r s2]| |]; reflexivity. }
-      apply rl_sim_if_peek; [discriminate|].
-      apply rl_sim_silent_r; [apply rl_sim_schema_ext_block|intros _; apply rl_silent_ret]. }
+      apply (rl_sim_fext rl_any (g_if_peek TkLCurly (g_schema_ext_block f))).
+      { intros s0. unfold g_if_peek, p_bind. destruct (g_peek_is TkLCurly s0) as [[c s1]| |]; [|reflexivity|reflexivity].
+        destruct c; reflexivity. }
+      apply rl_sim_if_peek; [discriminate|apply rl_sim_schema_ext_block]. }
     exact (proj2 Hsim s u s' E Hok Ht I).
   - (* no directives: a block with at least one root operation type is required *)
+    apply (rl_post_ext (rgl_rootops LP)); [symmetry; apply rgl_schema_ext_tail_noat; exact Hat|].
+    assert (Hsim : rl_sim rl_any (c <- g_peek_is TkLCurly ;; if c then g_schema_ext_block f else p_err) (rgl_rootops LP)).
+    { apply (rl_sim_peek_else_err TkLCurly); [discriminate|apply rl_sim_schema_ext_block|].
+      unfold rgl_rootops. apply rl_requires_seq_sat. }
     unfold p_ret at 1 in E. unfold p_bind at 1 in E.
-    unfold p_bind at 1 in E. rewrite (peek_is_some TkLCurly t s Hc) in E.
-    apply (rl_post_ext (fun ts => match ts with (TkLCurly, _) :: _ => rgl_rootops LP ts | _ => RgNo end));
-      [symmetry; apply rgl_schema_ext_tail_noat; exact Hat|].
-    pose proof (rl_sigs_head _ _ Hinv Hc) as Hhead.
-    destruct (tkind_eqb (tok_kind t) TkLCurly) eqn:Hk.
-    + apply tkind_eqb_eq in Hk. apply bind_ok in E as (r & s3 & E3 & E).
-      destruct (rl_schema_ext_block_flag _ _ _ _ _ Hinv Hc Hk E3) as (s2 & E2 & Hinv2 & Hsig2 & Hr).
-      rewrite Hk in Hhead. cbn [tkind_eqb] in Hhead.
-      destruct (proj2 (rl_sim_schema_ext_block f) s r s3 E3 Hok Ht ltac:(rewrite Hhead; reflexivity)) as [Hs3 Hc3].
-      destruct (rl_gen_run _ _ _ _ (proj1 (rl_sim_schema_ext_block f)) E3 Ht) as (Ht3 & _ & _ & Hx3).
-      unfold rl_sound, rl_complete in Hs3, Hc3 |- *. rewrite Hhead in Hs3, Hc3 |- *. cbv beta iota.
-      (* with a root operation type, `{ X* }` is `{ X+ }`; without one the reference fails and the parser reports *)
-      assert (Heq : r = true -> rgl_rootops0 LP ((TkLCurly, tok_data t) :: rl_sig (ps_items s))
-                              = rgl_rootops LP ((TkLCurly, tok_data t) :: rl_sig (ps_items s))).
-      { intros ->. unfold rgl_rootops0, rgl_rootops, rg_seq at 1 3. cbn [rg_sat rg_is fst tkind_eqb rg_bind].
-        unfold rg_seq. rewrite (rg_plus_many (rg_is TkName) (rgl_rootop LP) _ rgl_rootop_progress); [reflexivity|].
-        rewrite Hhead in Hsig2. injection Hsig2 as ->. symmetry. exact Hr. }
-      destruct r; cbn [negb p_when] in E.
-      * unfold p_ret in E. injection E as _ <-. rewrite <- (Heq eq_refl). split; assumption.
-      * assert (Hno : rgl_rootops LP ((TkLCurly, tok_data t) :: rl_sig (ps_items s)) = RgNo).
-        { unfold rgl_rootops, rg_seq at 1. cbn [rg_sat rg_is fst tkind_eqb rg_bind]. unfold rg_seq, rg_plus, rg_seq.
-          rewrite Hhead in Hsig2. injection Hsig2 as Hsig2. rewrite Hsig2.
-          destruct (rgl_rootop LP (rl_sigs s2)) as [r1| |] eqn:Eq; try reflexivity.
-          - rewrite (rgl_rootop_head _ _ Eq) in Hr. discriminate.
-          - exfalso. unfold rgl_rootop, rg_seq, rg_bind, rg_sat in Eq. destruct (rl_sigs s2) as [|t0 ts]; [discriminate|].
-            destruct (rg_is_optype t0); [|discriminate]. destruct ts as [|t1 ts1]; [discriminate|].
-            destruct (rg_is TkColon t1); [|discriminate]. cbn [rgl_rootop_notype rgl_parser] in Eq.
-            unfold rg_opt, rg_name, rg_sat in Eq. destruct ts1 as [|t2 ts2]; [discriminate|].
-            destruct (rg_is TkName t2); discriminate. }
-        rewrite Hno. split.
-        -- intros He. exfalso.
-           assert (Hx4 : rl_ext s3 s') by exact (proj2 (post_returns _ _ _ _ (proj2 rl_gen_err) s3 I _ _ E)).
-           destruct (rl_ext_split _ _ _ Hx3 Hx4 He) as [He3 He4]. destruct (Hs3 He3) as (Hok3 & _ & _).
-           exact (rl_err_run _ _ _ Hok3 E He4).
-        -- intros _ r0 Hq. discriminate Hq.
-    + (* neither `@` nor `{` *)
-      unfold p_ret at 1 in E. unfold p_bind at 1 in E. cbn [orb negb p_when] in E.
-      apply rl_post_dirty; [eapply rl_err_run; eauto|]. rewrite Hhead. cbv beta.
-      destruct (tkind_eqb (tok_kind t) TkEof); [reflexivity|]. destruct (tok_kind t); try reflexivity. discriminate Hk.
+    exact (proj2 Hsim s u s' E Hok Ht I).
 Qed.
 
 Lemma rl_sim_schema_extension f :
@@ -1086,12 +1028,5 @@ Lemma rl_sim_schema_extension f :
 Proof.
   unfold g_schema_extension. apply rl_sim_node. apply rl_sim_extend_kw.
   apply (rl_sim_fext rl_any (g_schema_ext_rest f)); [|apply rl_sim_schema_ext_rest].
-  intros s. unfold g_schema_ext_rest, g_schema_ext_block, p_bind, p_ret.
-  destruct (g_peek_is TkAt s) as [[d s1]| |]; [|reflexivity|reflexivity].
-  destruct (p_when d (g_directives f GConst) s1) as [[? s2]| |]; [|reflexivity|reflexivity].
-  destruct (g_peek_is TkLCurly s2) as [[c s3]| |]; [|reflexivity|reflexivity].
-  destruct c; [|reflexivity].
-  destruct (p_bump SK_L_CURLY s3) as [[? s4]| |]; [|reflexivity|reflexivity].
-  destruct (p_peek_while_kind_acc f TkName _ false s4) as [[r s5]| |]; [|reflexivity|reflexivity].
-  destruct (p_expect TkRCurly SK_R_CURLY s5) as [[? s6]| |]; reflexivity.
+  intros s. reflexivity.
 Qed.
